@@ -57,6 +57,9 @@ func main() {
 	var texts, toks []string
 	for i := 0; i < n; i++ {
 		t := mimegen.Gen(rng, 3)
+		if i%9 == 4 {
+			t = mimegen.GenDeep(rng, 5+rng.Intn(4))
+		}
 		tok := fmt.Sprintf("c14tok%d", i)
 		m := t.Serialize(mimegen.TopHeaders(rng, tok))
 		if c.Append("INBOX", "", m).OK() {
